@@ -213,6 +213,7 @@ RawScan(src, c0, acc) ==
   IN
   IF b = 0 THEN <<c, acc>>
   ELSE IF b = BSL /\ Peek(src, c) = 96 THEN RawScan(src, Adv(src, c), Append(acc, 96))
+  ELSE IF b = BSL /\ Peek(src, c) = BSL THEN RawScan(src, Adv(src, c), acc \o <<BSL, BSL>>)   \* escaped backslash: a pair
   ELSE IF b = 96 THEN <<c, acc>>
   ELSE RawScan(src, c, Append(acc, b))
 
